@@ -163,6 +163,7 @@ def plan(tier, seed):
             units.append({'kind': 'images', 'space': si, 'shard': j, 'nshards': nsh})
     units.append({'kind': 'threshold'})
     units.append({'kind': 'finder'})
+    units.append({'kind': 'infthr'})
     return units
 
 
@@ -192,6 +193,8 @@ def run_unit(unit, tier, seed):
                                    detect_sources, SegmentationImage, NoDetectionsWarning)
     elif unit['kind'] == 'threshold':
         run_threshold(acc, seed)
+    elif unit['kind'] == 'infthr':
+        run_infthr(acc, seed, tier)
     else:
         run_finder(acc, seed)
     return acc
@@ -246,6 +249,63 @@ def run_threshold(acc, seed):
                               np.asarray(got).ravel()[:4], np.asarray(want).ravel()[:4])
 
 
+INF_VALUES = (float('-inf'), -1.0, 2.0, float('nan'), float('inf'))
+INF_THRESHOLDS = (float('-inf'), -1.0, 1e39, float('inf'))
+
+
+def run_infthr(acc, seed, tier='quick', only=None):
+    """Infinite values on BOTH sides of the comparison: every image of the small shapes over
+    {-inf, -1, 2, NaN, +inf} x threshold {-inf, -1, 1e39 (beyond float32), +inf} x data dtype {f8, f4}
+    x connectivity; 'strictly above' is decided by plain Python float comparison (x > t), so a -inf
+    pixel never exceeds a -inf threshold and a +inf pixel exceeds every finite threshold."""
+    from photutils.segmentation import SegmentationImage, detect_sources
+    from photutils.utils.exceptions import NoDetectionsWarning
+    shapes = [(1, 1), (1, 3), (2, 2), (2, 3)] if tier == 'quick' else [(1, 1), (1, 3), (2, 2), (2, 3), (3, 3)]
+    for shape in shapes:
+        npx = shape[0] * shape[1]
+        for code in itertools.product(range(len(INF_VALUES)), repeat=npx):
+            vals = [INF_VALUES[c] for c in code]
+            for thr in INF_THRESHOLDS:
+                above = [[(vals[r * shape[1] + c] > thr) for c in range(shape[1])] for r in range(shape[0])]
+                for dt in ('f8', 'f4'):
+                    for conn in (4, 8):
+                        case = {'inf_image': vals_json(vals), 'shape': list(shape), 'threshold': thr_json(thr), 'dtype': dt,
+                                'connectivity': conn}
+                        if only is not None and case != only:
+                            continue
+                        data = np.array(vals, dtype=dt).reshape(shape)
+                        exp, nexp, _ = expected(above, conn, 1)
+                        acc.case(nontrivial=any(any(r) for r in above), sample=case if acc.evaluations % 20011 == 3 else None)
+                        with warnings.catch_warnings(record=True) as w:
+                            warnings.simplefilter('always')
+                            try:
+                                # np.float64 threshold: a 'strong' scalar, so the comparison is made in float64 for
+                                # float32 data as well (a Python float beyond the float32 range would be cast to
+                                # float32 = inf by numpy's weak-scalar promotion: implementation-defined, not judged)
+                                segm = detect_sources(data, np.float64(thr), 1, connectivity=conn)
+                            except Exception as e:
+                                acc.violation('raises', f'detect_sources:inf:{type(e).__name__}', case, repr(e), 'no exception')
+                                continue
+                        acc.outcome(None if segm is None else segm.data.tobytes())
+                        nodet = [x for x in w if issubclass(x.category, NoDetectionsWarning)]
+                        if (exp is None) != (segm is None):
+                            acc.violation('none-iff-empty', 'infinite-values', case, None if segm is None else segm.data.tolist(),
+                                          None if exp is None else exp.tolist())
+                        elif exp is None:
+                            if len(nodet) != 1:
+                                acc.violation('nodetections-warning', f'inf:count={len(nodet)}', case, len(nodet), 1)
+                        elif not np.array_equal(segm.data, exp):
+                            acc.violation('labels', 'infinite-values', case, segm.data.tolist(), exp.tolist())
+
+
+def vals_json(vals):
+    return ['nan' if v != v else ('inf' if v == float('inf') else ('-inf' if v == float('-inf') else v)) for v in vals]
+
+
+def thr_json(t):
+    return 'inf' if t == float('inf') else ('-inf' if t == float('-inf') else t)
+
+
 def run_finder(acc, seed):
     """SourceFinder(deblend=False) == detect_sources on the same (convolved) data."""
     from photutils.segmentation import SourceFinder, detect_sources
@@ -278,6 +338,8 @@ def replay(case, seed):
                    case['threshold_form'], seed, detect_sources, SegmentationImage, NoDetectionsWarning)
     elif 'finder_image' in case:
         run_finder(acc, seed)
+    elif 'inf_image' in case:
+        run_infthr(acc, seed, 'thorough', only=case)
     else:
         run_threshold(acc, seed)
     return acc
